@@ -32,6 +32,9 @@ def run(chk, repo):
     chk.attempt(w3, chk, op)
     chk.attempt(w4, chk, op)
     chk.attempt(g3_threading, chk, op, "C10-G3")
+    from .c07 import naming
+    chk.rule("C07-N", "one cache file per image: option writer, reader and CLI agree on <image file name>.index (a cache created by one image is never served for another)", 3)
+    chk.attempt(naming, chk, op)
     chk.count("functions", len(op.reach))
 
 
